@@ -868,10 +868,9 @@ def create_sampler(id_, var_id, parameters, arg):
     parameters2 = list(filter(lambda x: 'tree.ratios' != x, parameters))
     models = ['joint.jacobian', 'joint', 'like', 'prior', var_id]
     if arg.poisson:
-        # the Poisson joint has no separate prior model
+        # the Poisson joint has no separate prior model and no trait likelihood
         models.remove('prior')
-
-    if arg.location_regex:
+    elif arg.location_regex:
         models.append('like.location')
     elif arg.metadata and arg.trait:
         models.extend([f'like.{trait}' for trait in arg.trait])
